@@ -97,11 +97,27 @@ def map_order(cx, m: SMap):
 
 
 def assigned_names(stmts):
+    """names the statements bind in the enclosing function scope (comprehension targets and nested functions have
+    their own scope and are skipped)"""
     out = set()
+
+    def walk(n):
+        if isinstance(n, (ast.ListComp, ast.SetComp, ast.DictComp, ast.GeneratorExp, ast.Lambda,
+                          ast.FunctionDef, ast.AsyncFunctionDef, ast.ClassDef)):
+            if isinstance(n, (ast.FunctionDef, ast.AsyncFunctionDef, ast.ClassDef)):
+                out.add(n.name)
+            else:
+                # walrus targets inside a comprehension do leak; plain targets do not
+                for m in ast.walk(n):
+                    if isinstance(m, ast.NamedExpr) and isinstance(m.target, ast.Name):
+                        out.add(m.target.id)
+            return
+        if isinstance(n, ast.Name) and isinstance(n.ctx, (ast.Store, ast.Del)):
+            out.add(n.id)
+        for c in ast.iter_child_nodes(n):
+            walk(c)
     for s in stmts:
-        for n in ast.walk(s):
-            if isinstance(n, ast.Name) and isinstance(n.ctx, (ast.Store, ast.Del)):
-                out.add(n.id)
+        walk(s)
     return out
 
 
@@ -372,6 +388,9 @@ def _codec_for(it, v, hint=None):
         if v.kind == "bool":
             return BOOL
         return Codec(v.e.sort())
+    if isinstance(v, list) and v and all(isinstance(x, (SV, int, float)) and not isinstance(x, bool) for x in v):
+        from .coll import ListCodec
+        return ListCodec(len(v))
     if isinstance(v, bool):
         return BOOL
     if isinstance(v, int):
